@@ -5,12 +5,12 @@
 //!
 //! usage: quote_replay <cases.ndjson> <trace-out.ndjson>
 use serde_json::{json, Value};
+use simk::rk::{begin_run, end_run, vr};
 use simk::winshim;
 use std::fs::{self, File};
 use std::io::{BufRead, BufReader, Write};
 use subprocess::{Exec, Pipeline};
 
-const VR: &str = "/verif/work/vr";
 
 fn s_of(cps: &Value) -> String {
     cps.as_array().unwrap().iter().map(|c| char::from_u32(c.as_u64().unwrap() as u32).unwrap()).collect()
@@ -34,7 +34,7 @@ fn unhex(s: &str) -> Vec<u8> {
 fn main() {
     let args: Vec<String> = std::env::args().collect();
     let mut outf = std::io::BufWriter::new(File::create(&args[2]).unwrap());
-    let _ = fs::create_dir_all(VR);
+    begin_run();
     let mut n = 0;
     for line in BufReader::new(File::open(&args[1]).unwrap()).lines() {
         let line = line.unwrap();
@@ -68,12 +68,12 @@ fn main() {
                 let mut asked = false;
                 if v["sh"].as_bool().unwrap_or(false) && stages.len() == 1 {
                     asked = true;
-                    let _ = fs::remove_dir_all(VR);
-                    let _ = fs::create_dir_all(VR);
+                    let _ = fs::remove_dir_all(vr());
+                    let _ = fs::create_dir_all(vr());
                     let st = std::process::Command::new("sh").arg("-c").arg(&out).stdin(std::process::Stdio::null())
                         .stdout(std::process::Stdio::null()).stderr(std::process::Stdio::null()).status();
                     let _ = st;
-                    if let Ok(rd) = fs::read_dir(VR) {
+                    if let Ok(rd) = fs::read_dir(vr()) {
                         for e in rd.flatten() {
                             if e.path().extension().map(|x| x == "json").unwrap_or(false) {
                                 if let Ok(r) = serde_json::from_str::<Value>(&fs::read_to_string(e.path()).unwrap_or_default()) {
@@ -106,5 +106,6 @@ fn main() {
         outf.write_all(b"\n").unwrap();
     }
     outf.flush().unwrap();
+    end_run();
     eprintln!("quote_replay: {} cases", n);
 }
